@@ -58,6 +58,8 @@ Diff(y, e) ==
 Internal(x) ==
   UNION {PhaseEnd(x, j, "ok") \cup PhaseEnd(x, j, "err") \cup PhaseEnd(x, j, "badname") : j \in 1..Len(x.phs)} \cup Progress(x) \cup Noop(x)
   \cup UNION {EnvClose(x, i) : i \in 1..N(x)} \cup UNION {DiscEnd(x, i) : i \in 1..N(x)} \cup UNION {DiscProceed(x, i) : i \in 1..N(x)}
+  \* (a disconnect() that goes on and whose request cannot be written any more ends in the same callback)
+  \cup UNION {UNION {DiscEnd(y, i) : y \in DiscProceed(x, i)} : i \in 1..N(x)}
 
 Apply(x, e) ==
   CASE e.c = "UserStart"      -> UserStart(x)
